@@ -377,7 +377,7 @@ Proof.
         { eapply IH; [|exact Un|exact P]. rewrite Forall_forall in FA. exact (FA _ (nth_z_in _ _ _ N)). }
         apply uk_arr. apply forall_replace_nth; [exact FA|].
         destruct (is_missing y'); [apply uniq_scalar; intros; discriminate | exact Uy'].
-      * destruct (is_missing nv); [discriminate|]. destruct (100000000 <? i); [discriminate|].
+      * destruct (is_missing nv); [discriminate|]. destruct (max_array_backfill <? i - len _); [discriminate|].
         destruct (put_new r nv) as [inner|] eqn:N; [|discriminate]. injection H as _ <-.
         apply uk_arr. apply Forall_app. split; [exact FA|]. apply Forall_app. split.
         -- apply forall_repeat_null. apply uniq_scalar; intros; discriminate.
